@@ -16,8 +16,8 @@ def run(ctx):
                pw("emoji", 1), pw("emoji", 128), pw("mixed", 7), pw("mixed", 204)]
     else:
         bits = {1024, 2048, 4096}
-        nlens = {0, 1, 2, 16, 31, 32, 33, 63, 64}
-        pws = [pw("ascii", n) for n in list(range(0, 34)) + [63, 64, 65, 100, 127, 128, 255, 256, 257, 511, 512]] + \
+        nlens = {0, 1, 16, 32, 33, 64}
+        pws = [pw("ascii", n) for n in list(range(0, 17)) + [31, 32, 33, 63, 64, 65, 100, 127, 128, 255, 256, 257, 511, 512]] + \
               [pw("latin", n) for n in (1, 2, 31, 100, 256)] + [pw("cjk", n) for n in (1, 2, 21, 170)] + \
               [pw("emoji", n) for n in (1, 2, 16, 128)] + [pw("mixed", n) for n in (2, 3, 4, 7, 50, 204)]
     consts = {"KeyBits": bits, "NonceLens": nlens, "Passwords": Tla("{" + ", ".join(pws) + "}")}
